@@ -924,12 +924,40 @@ func (c *FCtx) execLoop(st *State, lp *loopParts) []Flow {
 			ps := f.st
 			if len(spec.Asserts) > 0 {
 				aenv := c.invEnv(ps, lp.node)
+				var idxLog []*Term
+				aenv.idxLog = &idxLog
+				done := map[int]*Term{}
 				for k, as := range spec.Asserts {
 					if !as.visible(c.prop) {
 						continue
 					}
 					t := aenv.evalBool(as.E)
-					c.oblige(ps, "assert", fmt.Sprintf("%s/assert[%d]", lname, k+1), t, pos)
+					done[k+1] = t
+					if len(as.From) > 0 && !c.dry {
+						// isolated cut: only the named earlier asserts (plus axiom instances about terms that occur) are hypotheses
+						var hyps []*Term
+						for _, f := range as.From {
+							if h, ok := done[f]; ok {
+								hyps = append(hyps, h)
+							}
+						}
+						if as.FromAxioms {
+							for _, h := range ps.pc {
+								if _, tagged := aboutTerm[h]; tagged {
+									hyps = append(hyps, h)
+								}
+							}
+						}
+						goal := t
+						if !as.FromAxioms {
+							// generalise: array elements that evaluated to compound terms become opaque constants
+							hyps, goal = c.abstractTerms(hyps, goal, idxLog)
+						}
+						sub := &State{pc: hyps}
+						c.oblige(sub, "assert", fmt.Sprintf("%s/assert[%d]", lname, k+1), goal, pos)
+					} else {
+						c.oblige(ps, "assert", fmt.Sprintf("%s/assert[%d]", lname, k+1), t, pos)
+					}
 					ps.assume(t)
 				}
 			}
@@ -1074,4 +1102,52 @@ func sortedKeys(m map[int]bool) []int {
 		}
 	}
 	return ks
+}
+
+// abstractTerms replaces every occurrence of the candidate compound terms by fresh constants (in all
+// hypotheses and the goal alike).  Proving the generalised VC proves the original one.
+func (c *FCtx) abstractTerms(hyps []*Term, goal *Term, cands []*Term) ([]*Term, *Term) {
+	if len(cands) == 0 {
+		return hyps, goal
+	}
+	byStr := map[string]*Term{}
+	for _, t := range cands {
+		k := t.String()
+		if _, ok := byStr[k]; !ok {
+			byStr[k] = Sym(c.freshName("abs"), t.S)
+		}
+	}
+	memo := map[*Term]*Term{}
+	var walk func(t *Term) *Term
+	walk = func(t *Term) *Term {
+		if r, ok := memo[t]; ok {
+			return r
+		}
+		if len(t.Args) == 0 {
+			return t
+		}
+		if r, ok := byStr[t.String()]; ok {
+			memo[t] = r
+			return r
+		}
+		args := make([]*Term, len(t.Args))
+		changed := false
+		for i, a := range t.Args {
+			args[i] = walk(a)
+			if args[i] != a {
+				changed = true
+			}
+		}
+		r := t
+		if changed {
+			r = &Term{Op: t.Op, S: t.S, Args: args, Bound: t.Bound, Pat: t.Pat, Num: t.Num}
+		}
+		memo[t] = r
+		return r
+	}
+	out := make([]*Term, len(hyps))
+	for i, h := range hyps {
+		out[i] = walk(h)
+	}
+	return out, walk(goal)
 }
